@@ -41,6 +41,20 @@ class ChunksIter:
         self.s, self.n, self.i = s, n, 0
 
 
+class CharsIter:
+    __slots__ = ("s", "i")
+
+    def __init__(self, s):
+        self.s, self.i = s, 0
+
+
+class ValIter:
+    __slots__ = ("v", "i")
+
+    def __init__(self, v):
+        self.v, self.i = v, 0
+
+
 class RangeIncl:
     __slots__ = ("lo", "hi", "done")
 
@@ -101,6 +115,21 @@ def iter_next(I, it, depth):
         i = it.i
         it.i += 1
         return some([i, r.fields[0]])
+    if isinstance(it, CharsIter):
+        s_ = it.s
+        if it.i >= s_.len:
+            return NONE()
+        raw = bytes(s_.heap[s_.start + it.i:s_.start + min(it.i + 4, s_.len)])
+        b0 = raw[0]
+        n = 1 if b0 < 0x80 else 2 if b0 < 0xE0 else 3 if b0 < 0xF0 else 4
+        ch = raw[:n].decode("utf-8", "surrogatepass")
+        it.i += n
+        return some(ord(ch))
+    if isinstance(it, ValIter):
+        if it.i < len(it.v):
+            it.i += 1
+            return some(it.v[it.i - 1])
+        return NONE()
     if isinstance(it, ChunksIter):
         if it.i + it.n <= it.s.len:
             sl = Slice(it.s.heap, it.s.start + it.i, it.n, it.s.esz)
@@ -303,6 +332,8 @@ def call(I, fr, name, fname, k, args, depth):
                 return SliceIter(Slice(t, 0, len(t)))
             if isinstance(t, Slice):
                 return SliceIter(t)
+        if isinstance(v, list):
+            return ValIter(list(v))
         return v
     if name.endswith("Iterator>::next") or name.endswith("Iterator::next") or (name.endswith("::next") and ("Range" in name or "slice::" in name or "Enumerate" in name)):
         return iter_next(I, args[0], depth)
@@ -478,6 +509,15 @@ def call(I, fr, name, fname, k, args, depth):
         return Ptr(s.heap, s.start * ps, ps, ps)
     if name.endswith("str::<impl str>::as_bytes"):
         return as_slice(I, args[0])
+    if name.endswith("str::<impl str>::chars"):
+        return CharsIter(as_slice(I, args[0]))
+    if name.endswith("str::<impl str>::bytes"):
+        return SliceIter(as_slice(I, args[0]))
+    if name.endswith("str::<impl str>::is_empty"):
+        return int(as_slice(I, args[0]).len == 0)
+    if name.endswith("char::methods::<impl char>::len_utf8"):
+        c = args[0]
+        return 1 if c < 0x80 else 2 if c < 0x800 else 3 if c < 0x10000 else 4
     if name.endswith("slice::<impl [T]>::get_unchecked") or name.endswith("SliceIndex<[T]>>::get_unchecked"):
         s = as_slice(I, args[0])
         i = args[1]
@@ -502,7 +542,7 @@ def call(I, fr, name, fname, k, args, depth):
             b = i.fields[0]
             return some(Slice(s.heap, s.start, b, s.esz)) if b <= s.len else NONE()
         raise Unsupported("slice::get with %r" % (i,))
-    if "ops::Index" in fname and fname.endswith("::index") or name.endswith("SliceIndex<[T]>>::index"):
+    if "ops::Index" in fname and fname.endswith("::index") or name.endswith("SliceIndex<[T]>>::index") or name.endswith("SliceIndex<str>>::index"):
         s = as_slice(I, args[0])
         r = args[1]
         if isinstance(r, RangeIter):
